@@ -679,7 +679,7 @@ def run_shard(spec):
             for desc, s in U.shard(deps, spec["k"], spec["n"]):
                 judge(s, acc, "c:" + desc.split("[")[0].split(" ")[0] + "." + desc.split(".")[-1].split(" ")[-1], via_load=True)
         else:
-            singles = [(d, s) for d, s in deps if not d.startswith("index") and "permuted" not in d]
+            singles = [(d, s) for d, s in deps if not d.startswith(("index", "fileindex")) and "permuted" not in d]
             pairs = itertools.combinations(range(len(singles)), 2)
             for i, j in U.shard(pairs, spec["k"], spec["n"]):
                 d1, s1 = singles[i]
@@ -689,7 +689,7 @@ def run_shard(spec):
                 # apply the second departure on top of the first when they touch different fields
                 new = dict(s1)
                 changed = [k for k in s2 if s2[k] != base.get(k)]
-                if len(changed) != 1 or any(s1[k] != base.get(k) for k in changed):
+                if len(changed) != 1 or any(s1.get(k) != base.get(k) for k in changed):
                     continue
                 new[changed[0]] = s2[changed[0]]
                 judge(new, acc, "c2")
